@@ -775,7 +775,7 @@ func signatureOf(vc *VCase, class string) (sig string, minProg *gm.Program, minH
 // report confirms the failing case 5 times on fresh engines, minimises it and records it. The minimisation is
 // cached per (body, class): the other histories of the same body failing the same way share the signature.
 func (w *worker) report(class string, vc *VCase) {
-	key := vc.Part + "|" + bodyClass(vc.Name) + "|" + class
+	key := vc.Part + "|" + vc.Name + "|" + class
 	if sig, ok := w.sigs[key]; ok {
 		w.r.Violation(sig, describe(vc), vc)
 		return
